@@ -148,6 +148,41 @@ def r1_3_r1_4(ctx, prog):
         ctx.ob("R1.4", "helper:%s" % fn, len(cs) == 1 and cs[0].endswith("::" + callee), "%s calls %s" % (fn, [x.split("::")[-1] for x in cs]), b.where())
 
 
+def r1_5_header(ctx, prog):
+    ctx.rule("R1.5", "the encoder writes all four header fields (type, length = 0, cookie, id) before the attribute loop, so the "
+                     "returned size, 20 + header length and the decoder's consumed size agree even for attribute-less messages")
+    from . import c02
+    c02.r2_5_constants(ctx, prog, rule="R1.5")
+
+
+def r1_6_nested_padding(ctx, prog):
+    ctx.rule("R1.6", "nested TLV padding agreement (PASSWORD-ALGORITHMS): both encoder and decoder pad per entry - the argument of "
+                     "padding() is the size of the entry just encoded / decoded, never an accumulated size")
+    pa_t = "stun_rs::attributes::stun::password_algorithms::PasswordAlgorithms"
+    for side, tr, callee in (("decode", "DecodeAttributeValue", "decode"), ("encode", "EncodeAttributeValue", "encode")):
+        b = prog.body("<%s as stun_rs::attributes::%s>::%s" % (pa_t, tr, side))
+        paths, info = C.explore_fn(prog, b.path, "x", [r"\{closure"])
+        ctx.fn(b)
+        args = {}
+        for pa in paths:
+            for e in pa.calls:
+                if re.search(r"^stun_rs::common::padding$", e[1]):
+                    t = C.expr_of(pa, e[2][0])
+                    args[repr(t)[:120]] = t
+
+        def entry_size(t):
+            # 0 (nothing decoded yet) or a projection of the nested encoder/decoder result
+            if t == 0:
+                return True
+            if isinstance(t, tuple) and len(t) == 2 and isinstance(t[0], tuple) and isinstance(t[1], str):
+                node = t[0]
+                return isinstance(node[0], str) and node[0].endswith("::%s" % callee) and "PasswordAlgorithm" in node[0]
+            return False
+        bad = [k for k, t in args.items() if not entry_size(t)]
+        ctx.ob("R1.6", "padding-argument:%s" % side, bool(args) and not bad,
+               "padding() is applied to %s%s" % (sorted(x[:60] for x in args), (" - not an entry size: %s" % bad[0][:100]) if bad else ""), b.where())
+
+
 def check(ctx, env):
     ctx.explanation = (
         "Static, structural necessary conditions of the round trip: (R1.1) the variants of StunAttribute and the set of types "
@@ -175,4 +210,8 @@ def check(ctx, env):
         ctx.ob("R1.2", "distinct-codes@%s" % cfg, not dups and len(codes) >= 10, "%d type codes, duplicates: %s" % (len(codes), dups or "none"))
     ctx.floor("R1.1", "attribute kinds checked", total, 38 + 10)
     r1_3_r1_4(ctx, env.prog("full"))
+    r1_5_header(ctx, env.prog("full"))
+    r1_6_nested_padding(ctx, env.prog("full"))
+    from . import c02
+    c02.r2_3_layouts(ctx, env.prog("full"), rule="R1.7")
     ctx.extra["configs_checked"] = configs if len(configs) < 6 else "%d feature configurations" % len(configs)
